@@ -26,10 +26,10 @@ def instances(tier, seed):
                     if mode == "integ" and not two and (tier == "thorough" or ig in ("RungeKuttaMerson", "ExplicitEuler", "RungeKutta3", "Verlet")) and d == "rising":
                         out.append(dict(name="%s/%s/%s/rep" % (ig, d, mode), args=[ig, d, mode, "", "rep"],
                                         paths=10 if tier == "quick" else 120, base_points=1, flips_per_path=10 if tier == "quick" else 30,
-                                        z3_timeout_ms=15000 if tier == "quick" else 120000, abstract_big=True, max_terms=6000, flip_linear_only=True, pc_filter="linear-first"))
+                                        z3_timeout_ms=15000 if tier == "quick" else 120000, abstract_big=True, max_terms=6000, flip_linear_only=True, pc_filter="linear-first", seed_check=True, replay_tol=1e-12, lra_first=True))
                     out.append(dict(name="%s/%s/%s%s" % (ig, d, mode, "/two" if two else ""), args=[ig, d, mode, two],
                                     paths=6 if tier == "quick" else 120, base_points=1, flips_per_path=6 if tier == "quick" else 30, z3_timeout_ms=15000 if tier == "quick" else 120000,
-                                    abstract_big=True, max_terms=6000, flip_linear_only=True, pc_filter="linear-first"))
+                                    abstract_big=True, max_terms=6000, flip_linear_only=True, pc_filter="linear-first", seed_check=True, replay_tol=1e-12, lra_first=True))
     return out
 
 
@@ -91,15 +91,15 @@ def obligations(enc, inst, tr):
                           [Constraint(1, P.sub(t, tlow), "t=tLow"), Constraint(4, P.sub(tlow, thigh), "tLow<tHigh"),
                            Constraint(5, P.sub(P.sub(thigh, tlow), P.scale(wreq, 1)), "width<=accuracy*timescale*0.1")]))
             if two:
-                # each witness whose crossing lies in the window must have been localised to ITS OWN required window
+                # each witness whose crossing lies strictly inside the window must have been localised to ITS OWN required window:
+                # not crossing (e(tLow) >= 0 or e(tHigh) <= 0)  or  width <= its requirement
                 qr = enc.out("qret%d" % c)
                 qh = P.add(qr, R.mul(u0, P.sub(thigh, tlow)))
-                imps = []
                 for k, cth in enumerate(cs):
                     wk = enc.out("wreq%d" % k)
-                    imps.append("(=> (and (<= %s 0.0) (>= %s 0.0)) (<= %s 0.0))" % (R.smt(P.sub(qr, cth)), R.smt(P.sub(qh, cth)), R.smt(P.sub(P.sub(thigh, tlow), wk))))
-                o2 = Ob("call %d: window no wider than the requirement of every witness that crosses inside it" % c, [], extra_smt=["(not (and %s))" % " ".join(imps)])
-                obs.append(o2)
+                    obs.append(Ob("call %d: window no wider than the requirement of witness %d if it crosses inside it" % (c, k),
+                                  [Constraint(3, P.sub(qr, cth), "e(tLow)>=0"), Constraint(5, P.sub(qh, cth), "e(tHigh)<=0"),
+                                   Constraint(5, P.sub(P.sub(thigh, tlow), wk), "width<=w_k")], any=True))
             # the reported before-state is on the pre-event trajectory: q(tLow) = qret
             # triggered witnesses bracket their crossing: value not triggered at tLow (using the returned state), triggered at tHigh
             qret = enc.out("qret%d" % c)
@@ -114,17 +114,12 @@ def obligations(enc, inst, tr):
                 est = enc.out("est%d_%d" % (c, k))
                 goal += [Constraint(3, P.sub(est, tlow), "est>=tLow"), Constraint(5, P.sub(est, thigh), "est<=tHigh")]
             obs.append(Ob("call %d: estimated event times lie in the window" % c, goal))
-            brack = []
-            for cth in cs:
-                brack.append(("w", P.sub(qret, cth), P.sub(qhigh, cth)))
-            # at least one witness has e(tLow) <= 0 <= e(tHigh) (in terms of q - c, both directions push q upward)
-            parts = " ".join("(and (<= %s 0.0) (>= %s 0.0))" % (R.smt(lo), R.smt(hi)) for _, lo, hi in brack)
-            obs.append(Ob("call %d: some monitored witness changes sign inside (tLow, tHigh]" % c,
-                          [Constraint(1, P.const(0), "see extra")], extra_smt=["(not (or %s))" % parts] if False else [],
-                          ))
-            obs[-1].goal = []
-            obs[-1].extra_smt = ["(not (or %s))" % parts]
-            obs[-1].twin = None
+            # at least one witness has e(tLow) <= 0 <= e(tHigh): (a1 and b1) or (a2 and b2) in conjunctive normal form
+            lows = [Constraint(5, P.sub(qret, cth), "e%d(tLow)<=0" % k) for k, cth in enumerate(cs)]
+            highs = [Constraint(3, P.sub(qhigh, cth), "e%d(tHigh)>=0" % k) for k, cth in enumerate(cs)]
+            import itertools as _it
+            for pick in _it.product(*[(lows[k], highs[k]) for k in range(len(cs))]):
+                obs.append(Ob("call %d: some monitored witness changes sign inside (tLow, tHigh] [%s]" % (c, ",".join(x.why for x in pick)), list(pick), any=True))
             # number of listed events <= number of witnesses whose sign changes (no spurious listing)
             if two and nest == 1:
                 pass
@@ -144,10 +139,13 @@ def obligations(enc, inst, tr):
         # trajectory consistency: q at invocation = q0 + u0*t + k*delta (handlers before it each displaced q by delta)
         obs.append(Ob("handler %d invoked on the trajectory produced by earlier handlers" % k,
                       [Constraint(1, P.sub(hq, P.add(P.add(q0, R.mul(u0, ht)), P.scale(delta, k))), "q=q0+u0 t+k delta")]))
-        # the witness it belongs to has crossed by at most u0*width at invocation time
-        parts = " ".join("(and (>= %s 0.0) (<= %s %s))" % (R.smt(P.sub(hq, cth)), R.smt(P.sub(hq, cth)), R.smt(R.mul(u0, wreq))) for cth in cs)
-        o = Ob("handler %d invoked within the localisation width after a crossing" % k, [], extra_smt=["(not (or %s))" % parts])
-        obs.append(o)
+        # the witness it belongs to has crossed by at most u0*(its localisation width) at invocation time:
+        # OR_k (0 <= hq - c_k <= u0*w), in conjunctive normal form
+        import itertools as _it
+        lo = [Constraint(3, P.sub(hq, cth), "hq>=c%d" % kk) for kk, cth in enumerate(cs)]
+        hi = [Constraint(5, P.sub(P.sub(hq, cth), R.mul(u0, wreq)), "hq<=c%d+u0*w" % kk) for kk, cth in enumerate(cs)]
+        for pick in _it.product(*[(lo[kk], hi[kk]) for kk in range(len(cs))]):
+            obs.append(Ob("handler %d invoked within the localisation width after a crossing [%s]" % (k, ",".join(x.why for x in pick)), list(pick), any=True))
     qf = enc.out("qfinal")
     tend = enc.out("tend") if mode == "stepper" else enc.out("t%d" % (int(tr.note("ncalls")) - 1))
     obs.append(Ob("integration continues from the state the handlers produced (final q = q0 + u0 t + n delta)",
@@ -158,6 +156,14 @@ def obligations(enc, inst, tr):
         nterms = sum(len(c.p) for c in o.goal)
         ninv = len({v for c in o.goal for v in R.vars_of(c.p) if R.kind[v] == "inv"})
         if nterms > 600 or ninv > 3:
-            continue
+            # too large for the solver budget: not claimed - unless the path's own seed already falsifies it, in which case it is
+            # kept so that the violation is reported (instance key seed_check replays it before the solver is asked)
+            from engine.driver.core import goal_numeric
+            try:
+                hy, go, _ = goal_numeric(enc, o, tol=1e-13)
+            except Exception:
+                hy, go = True, True
+            if not (hy and not go):
+                continue
         keep.append(o)
     return keep
